@@ -6,7 +6,7 @@ ID = "C10"
 MODE = "bfs"
 RULE = (
     "state = history of named-paths runs; operation = (group in {g1, g2, g1 addressed as 'g1#two'}) x (new CsvPaths | reuse the live instance) x (run method) x "
-    "(clock: stay in the same second | next instant | skip one instant, over a fixed ladder of instants that crosses 12:59:59->13:00:00 "
+    "(clock: stay in the same second | next instant | skip one instant, over a fixed ladder of instants that crosses 12:59:59->13:00:00, a minute boundary with a smaller seconds field (13:00:01->13:01:00) "
     "and midnight); every (state, operation) is replayed on the real CsvPaths in a fresh sandbox under a virtual clock; invariants "
     "after EVERY run: exactly one new run directory appeared, under archive/<its own group>/; every file of every earlier run is "
     "byte-identical; directory names of runs started in different seconds sort chronologically; $g.results.<prefix>:last.<id> and "
@@ -33,7 +33,7 @@ D1 = dt.datetime(2024, 5, 6, tzinfo=dt.timezone.utc)
 def _ladder():
     t = []
     for (d, h, m, s) in [
-        (0, 12, 59, 58), (0, 12, 59, 59), (0, 13, 0, 0), (0, 13, 0, 1), (0, 23, 59, 59), (1, 0, 0, 1), (1, 9, 0, 0), (1, 12, 0, 0),
+        (0, 12, 59, 58), (0, 12, 59, 59), (0, 13, 0, 0), (0, 13, 0, 1), (0, 13, 1, 0), (0, 23, 59, 59), (1, 0, 0, 1), (1, 9, 0, 0), (1, 12, 0, 0),
         (1, 12, 59, 59), (1, 13, 0, 0), (1, 22, 0, 0), (2, 0, 30, 0), (2, 12, 30, 0), (2, 13, 30, 0),
     ]:
         t.append(D1 + dt.timedelta(days=d, hours=h, minutes=m, seconds=s))
